@@ -65,11 +65,25 @@ func rulesC19(c *Ctx) {
 	c.c19NoStaleCounter()
 	R.Rule("R5", "outputs are derived from the stored counter of the keyset they are derived on: the counter handed to the derivation was read for the same keyset id", 4)
 	c.c19CounterKeysetAgreement()
+	R.Rule("R8", "the counter is read from storage at the time of use: the wallet's counter accessor returns the stored value itself, not an in-memory copy that another path can leave behind", 1)
 	R.Rule("R9", "restore answers are computed afresh: the restore endpoint is not served from the mint's response cache (shared with C20.R4; a cached 'nothing signed' batch hides what was signed since)", 10)
 	R.Rule("R7", "a counter value read for deriving outputs is not made stale before those outputs are submitted: no call that itself derives outputs and advances a counter lies between the read and the submission", 3)
 	R.Rule("R6", "the wallet lock is not dropped between reading a keyset counter and advancing it", 3)
 	c.c19LockSpan()
 	c.c19NoNestedUseBetweenReadAndSubmit()
+	if f := c.P.Func("wallet.(*Wallet).counterForKeyset"); f != nil {
+		o := c.P.OriginsOf(f)
+		ok, why := true, ""
+		for _, r := range Returns(f) {
+			e := o.Of(r.Results[0])
+			if !(e.K == "call" && e.Call != nil && c.P.Describe(e.Call).Iface != nil && c.P.Describe(e.Call).Iface.Name() == "GetKeysetCounter") {
+				ok, why = false, "returns "+short(e.String(), 140)
+			}
+		}
+		R.Check("R8", c.P.FuncKey(f), "counter accessor returns the stored counter", c.P.Pos(f.Pos()), ok, "the accessor hands back what storage holds for the keyset (no cache between storage and the derivation)", why)
+	} else {
+		R.Trivial("R8", "wallet", "counter accessor", "wallet/wallet.go", "the wallet reads the counter straight from storage at every use (no accessor function on this tree)")
+	}
 	c.runAs("R4", "R9", func(cc *Ctx) { cc.c20Cache() })
 
 	// the swap request helper is consistent: outputs derived on the keyset it records
@@ -417,6 +431,41 @@ func (c *Ctx) c19Restore() {
 				okMatch = true
 			}
 		}
+	}
+	// position in the mint's (filtered) answer is not position in the batch that was sent: inside the loop over the
+	// returned signatures the wallet's own per-batch lists (secrets, blinding factors) are never read at the loop's index
+	{
+		okI, whyI := true, ""
+		for _, og := range c.OpContexts(f) {
+			g := og.Fn
+			if g.Parent() != nil {
+				continue
+			}
+			for _, l := range og.Loops.Loops {
+				if l.RangeOf == nil || !strings.HasSuffix(og.Of(l.RangeOf).String(), ".Signatures") {
+					continue
+				}
+				for b := range l.Blocks {
+					for _, in := range b.Instrs {
+						ld, ok := in.(*ssa.UnOp)
+						if !ok || ld.Op.String() != "*" {
+							continue
+						}
+						ia, ok := ld.X.(*ssa.IndexAddr)
+						if !ok || og.Loops.byIndex[ia.Index] != l {
+							continue
+						}
+						xe := og.Of(ia.X).String()
+						if strings.HasSuffix(xe, ".Signatures") || strings.HasSuffix(xe, ".Outputs") {
+							continue // the answer's own lists are parallel to each other
+						}
+						okI = false
+						whyI = "list " + short(xe, 80) + " is read at the index of the returned signature (" + c.P.InstrPos(in) + "); the mint returns only the outputs it signed"
+					}
+				}
+			}
+		}
+		R.Check("R3", fk, "the wallet's batch lists are not indexed by the answer's position", c.P.Pos(f.Pos()), okI, "secrets and blinding factors are looked up through the matched B_, never by the position of the signature in the answer", whyI)
 	}
 	R.Check("R3", fk, "proof rebuilt with the r of the matched B_", c.P.Pos(f.Pos()), okR && okMatch, "each returned signature is matched to the sent message with the same B_ and unblinded with that message's r", "")
 
